@@ -4,7 +4,12 @@ Scenario: a session  op*  with
           | :reinst <id>                     (installPlugin on the EXISTING plugin object <id>, removed or dropped earlier; then the chain)
           | :test xtest                      (one test run through the registry)
           | :run <k> xtest*k                 (one TestRegistry::runAllTests over k tests, then the chain)
-          | :runner <rep> <k> xtest*k        (CommandLineTestRunner::runAllTestsMain on that registry, -r<rep>, then the chain)
+          | :runner <rep> <k> xtest*k        (CommandLineTestRunner::runAllTestsMain on that registry, -r<rep>, -e iff a test throws, then
+                                              UtestShell::setRethrowExceptions(false); then the chain)
+          | :runnerx <e> <f> <p> <v> <c> <rep> <k> xtest*k   (runAllTestsMain with the command line -e -f -p -v|-vv -c -r<rep> as flagged; the
+                                              process-wide switches it leaves behind are NOT reset; then the chain)
+          | :rethrow <0|1>                   (UtestShell::setRethrowExceptions)
+          | :crashonfail <0|1>               (UtestShell::setCrashOnFail / restoreDefaultTestTerminator; the crash method returns)
   xtest ::= <n> xstmt*n <n> xstmt*n <n> xstmt*n                         (setup, body, teardown)
   xstmt ::= :set <loc> <val> | :wr <loc> <val> | :fail | :failc | :thr | :thrstd | act
   act   ::= :ai <name> <kind> | :ar <name> | :ae <id> | :ad <id> | :az | :ab <id>
@@ -12,7 +17,7 @@ Scenario: a session  op*  with
 (plugin ids = creation ordinals, the runner's own pointer plugin takes one; name a0 = DEF_PLUGIN_SET_POINTER; :act installs a
 recording plugin that performs its actions inside its pre (0) or post (1) action).
 Observation: per test ":t failed npre ids npost ids pool[0..39]" (ids without the plugins an action of that test named),
-per :rm/:reset/:reinst and after :run/:runner ":c n ids"."""
+per :rm/:reset/:reinst and after :run/:runner/:runnerx ":c n ids"; ":x" = an exception left the run (the rest of the scenario is not run)."""
 import os
 import re
 from vlib import tz
@@ -53,14 +58,29 @@ RULE = ("(a) pointer sessions: a SetPointerPlugin (+0-3 recording plugins, any e
         "one from setup / body / teardown / a plugin's pre / post action, and an acting plugin that removes and re-installs another "
         "plugin in every test; random histories over 2-7 objects (install new, remove by name at head / middle / tail / absent / "
         "duplicate names, reset, re-install an object that is outside the chain, enable / disable objects inside and outside the "
-        "chain, tests and runs in between, pointer plugins with redirections).  non-trivial = at least one test with a "
+        "chain, tests and runs in between, pointer plugins with redirections); "
+        "(f) several runs in ONE process, the process-wide switches not reset in between: exhaustively an earlier runner invocation "
+        "without -e / with -e / both / with -f / -vv -c / twice (nothing throws) x a runner invocation WITH -e in which a test redirects "
+        "pointers and throws (int / std::exception x setup / body / teardown) x 4 registries, -r2, a third run, the direct API "
+        "(setRethrowExceptions(true) then a run with -e; on, off, then a registry run with a throwing test; a run without -e, "
+        "setRethrowExceptions(false), registry runs), -f left behind with failing tests later, -p (forked tests, every outcome); random "
+        "processes of 2-5 runs (command lines from -e -f -p -v -vv -c -r1..3, registry runs, single tests, setRethrowExceptions / "
+        "setCrashOnFail calls) where a throwing test is placed with probability 0.8 in a run whose own -e turns off what an earlier "
+        "run left on.  non-trivial = at least one test with a "
         "redirection, a removal on a chain of >= 2 plugins, a re-install, or an action inside a run")
 ASSUMPTIONS = ["a test that uses UT_PTR_SET runs with an enabled SetPointerPlugin installed (the user's own, or the one CommandLineTestRunner "
                "installs) that no action of that very test names, and no SetPointerPlugin is constructed while that test runs",
                "plugin names differ from \"null\", the name of the chain's sentinel",
                "the scripted plugin actions install / remove / enable / disable plugins but neither fail nor throw; an acting plugin is named "
-               "only by itself, in the last of its actions; tests run in the current process; "
-               "exceptions are not rethrown (the runner is given -e when a scripted test throws)",
+               "only by itself, in the last of its actions",
+               "a test that throws runs where exceptions are not rethrown: under a runner invocation whose OWN command line has -e, or in a "
+               "registry run when every switch event since the last setRethrowExceptions(false) (or the start of the process) was a runner "
+               "invocation with -e (with rethrowing on, the exception is meant to leave the run: no post actions, nothing restored; Coq: "
+               "C17_rethrown_test_refuted)",
+               "in a session that uses -p (tests in forked children) no test or plugin action touches the registry and there are no acting "
+               "plugins (what a forked test does to its copy of the registry is lost; Coq: C17_forked_registry_actions_refuted); the harness keeps "
+               "the pointer pool and the plugins' event log in memory shared with the children",
+               "-f is run with a crash method that returns (UtestShell::setCrashMethod); shuffle, reverse, filters, -ri are not used",
                "whether a plugin that an action of a test installs, removes, enables or disables sees that very test's pre / post action is "
                "not fixed by the property: its log entries for that test are not observed (from the next test on they are)",
                "after the runner, a user plugin that shares the runner's plugin name may or may not be left installed (not observed)",
@@ -71,7 +91,8 @@ ASSUMPTIONS = ["a test that uses UT_PTR_SET runs with an enabled SetPointerPlugi
 CRASH_IS_VIOLATION = True
 ABORTS = [":fail", ":failc", ":thr", ":thrstd"]
 ACTS = {":ai": 2, ":ar": 1, ":ae": 1, ":ad": 1, ":az": 0, ":ab": 1}
-OPS = (":inst", ":act", ":en", ":dis", ":rm", ":reset", ":reinst", ":test", ":run", ":runner")
+OPS = (":inst", ":act", ":en", ":dis", ":rm", ":reset", ":reinst", ":test", ":run", ":runner", ":runnerx", ":rethrow", ":crashonfail")
+THROWS = (":thr", ":thrstd")
 
 
 # ----------------------------------------------------------------------------- scenario syntax
@@ -120,9 +141,20 @@ def parse(s):
                 acts.append(a)
             ops.append(("act", t[i + 1], t[i + 2], acts))
             i = j
-        elif k in (":en", ":dis", ":rm", ":reinst"):
+        elif k in (":en", ":dis", ":rm", ":reinst", ":rethrow", ":crashonfail"):
             ops.append((k[1:], t[i + 1]))
             i += 2
+        elif k == ":runnerx":
+            flags = tuple(t[i + 1:i + 6])
+            rep = t[i + 6]
+            n = int(t[i + 7], 16)
+            j = i + 8
+            xs = []
+            for _ in range(n):
+                x, j = parse_xtest(t, j)
+                xs.append(x)
+            ops.append(("runnerx", flags, rep, xs))
+            i = j
         elif k == ":reset":
             ops.append(("reset",))
             i += 1
@@ -158,8 +190,10 @@ def fmt_op(o):
         return ":inst %s %s" % (o[1], o[2])
     if k == "act":
         return (":act %s %s %x " % (o[1], o[2], len(o[3])) + " ".join(" ".join(a) for a in o[3])).strip()
-    if k in ("en", "dis", "rm", "reinst"):
+    if k in ("en", "dis", "rm", "reinst", "rethrow", "crashonfail"):
         return ":%s %s" % (k, o[1])
+    if k == "runnerx":
+        return (":runnerx %s %s %x " % (" ".join(o[1]), o[2], len(o[3])) + " ".join(fmt_xtest(x) for x in o[3])).strip()
     if k == "reset":
         return ":reset"
     if k == "test":
@@ -328,12 +362,43 @@ class Reg:
         return named, start
 
 
+def has_throw(xs):
+    return any(s[0] in THROWS for x in xs for ph in x for s in ph)
+
+
+def has_acts(xs):
+    return any(s[0] in ACTS for x in xs for ph in x for s in ph)
+
+
 def simulate(ops):
     """-> (valid, trace) ; trace = per op what the textbook expects (used by signature)"""
     r = Reg()
     trace = []
+    coff = True          # exceptions are certainly not rethrown in a registry run now (mirror of throws_ok in C17_ModelP.v)
+    if any(o[0] == "runnerx" and int(o[1][2], 16) for o in ops):      # -p somewhere: nothing touches the registry from inside a test
+        for o in ops:
+            if o[0] == "act":
+                return False, trace
+            if o[0] in ("test", "run", "runner", "runnerx") and has_acts([o[1]] if o[0] == "test" else o[-1]):
+                return False, trace
     for idx, o in enumerate(ops):
         k = o[0]
+        if k == "rethrow":
+            coff = not int(o[1], 16)
+            continue
+        if k == "crashonfail":
+            continue
+        if k == "runnerx":
+            if has_throw(o[3]) and not int(o[1][0], 16):
+                return False, trace
+            ctx = "-e" if int(o[1][0], 16) else "no -e"
+            coff = coff and bool(int(o[1][0], 16))
+            o = ("runner", o[2], o[3])
+            k = "runner"
+        elif k == "runner":
+            coff = True
+        elif k in ("test", "run") and has_throw([o[1]] if k == "test" else o[1]) and not coff:
+            return False, trace
         if k == "inst":
             r.install(int(o[1], 16), int(o[2], 16))
         elif k == "act":
@@ -371,7 +436,8 @@ def simulate(ops):
                 trace.append(("t", vis, k, j, bool(named), nset))
             if k == "runner":
                 amb = any(p.name == RUNNER_NAME and p.role != "runner" for p in r.c)
-                if amb and idx + 1 < len(ops) and ops[idx + 1][0] != "reset":
+                nxt = [q for q in ops[idx + 1:] if q[0] not in ("rethrow", "crashonfail")]     # the switch calls are no registry operations
+                if amb and nxt and nxt[0][0] != "reset":
                     return False, trace
                 r.act((":ar", "%x" % RUNNER_NAME))
             if k != "test":
@@ -814,10 +880,155 @@ def exhaustive_runner():
         out.append(" ".join(ops))
     return out
 
+# ----------------------------------------------------------------------------- generation: several runs in one process
+def cmdline(e=0, f=0, p=0, v=0, c=0):
+    return ("%x" % e, "%x" % f, "%x" % p, "%x" % v, "%x" % c)
+
+
+def thrower(kind, phase, nset=1, after=()):
+    """a test that redirects nset pointers in its setup and then throws (kind) from the given phase"""
+    x = [[(":set", "%x" % i, "%x" % (0x50 + i)) for i in range(nset)], [], []]
+    x[phase] = x[phase] + [(kind,)] + list(after)
+    return x
+
+
+def no_throws(x):
+    return [[((":fail",) if s[0] in THROWS else s) for s in ph] for ph in x]
+
+
+def with_throw(rng, x):
+    """put a throw behind a redirection (or anywhere if there is none)"""
+    x = [list(ph) for ph in x]
+    spots = [(pi, si + 1) for pi, ph in enumerate(x) for si, s in enumerate(ph) if s[0] == ":set"]
+    if spots and rng.random() < 0.8:
+        pi, si = rng.choice(spots)
+        pj = rng.choice([q for q in range(pi, 3)])          # same phase or a later one
+        x[pj].insert(si if pj == pi else rng.randrange(len(x[pj]) + 1), (rng.choice(THROWS),))
+    else:
+        pj = rng.randrange(3)
+        x[pj].insert(rng.randrange(len(x[pj]) + 1), (rng.choice(THROWS),))
+    return x
+
+
+QUIETS = [[[], [], []], [[], [(":set", "0", "9"), (":set", "1", "a"), (":set", "0", "b")], []], [[], [(":set", "2", "7"), (":fail",)], [(":wr", "3", "1")]]]
+
+
+def exhaustive_process():
+    """the conditions of red-team change C17-2 (round 5) and their neighbours: an earlier run / API call that leaves the rethrow
+    switch on (or off), then a run with its own -e (or the switch set off again) in which a test redirects pointers and throws"""
+    out = []
+    chains = [([], False), ([":inst 1 0"], False), ([":inst 1 0", ":inst 2 1"], True), ([":inst a1 1", ":inst 3 0", ":dis 0"], False)]
+    for ch, user_sp in chains:
+        for kind in THROWS:
+            for phase in range(3):
+                t = fmt_xtest(thrower(kind, phase, 2, [(":set", "5", "5")]))
+                q = fmt_xtest(QUIETS[1])
+                # earlier runner invocations: without -e (nothing throws) / with -e / with -e then without / -f / -vv
+                for first in ([cmdline()], [cmdline(e=1)], [cmdline(e=1), cmdline()], [cmdline(f=1)], [cmdline(v=2, c=1)], [cmdline(), cmdline()]):
+                    pre = [":runnerx %s 1 1 %s" % (" ".join(c), q) for c in first]
+                    out.append(" ".join(ch + pre + [":runnerx %s 1 2 %s %s" % (" ".join(cmdline(e=1)), t, q)]))
+                # -r2 in either run, and a third run after the throwing one
+                out.append(" ".join(ch + [":runnerx %s 2 1 %s" % (" ".join(cmdline()), q), ":runnerx %s 2 1 %s" % (" ".join(cmdline(e=1)), t),
+                                          ":runnerx %s 1 1 %s" % (" ".join(cmdline()), q)]))
+                # the direct API: switched on, then a run with -e; switched on and off again, then a registry run
+                out.append(" ".join(ch + [":rethrow 1", ":runnerx %s 1 1 %s" % (" ".join(cmdline(e=1)), t)]))
+                out.append(" ".join(ch + [":runnerx %s 1 1 %s" % (" ".join(cmdline()), q), ":rethrow 1", ":rethrow 0", ":runnerx %s 1 1 %s" % (" ".join(cmdline(e=1)), t)]))
+                if user_sp:
+                    out.append(" ".join(ch + [":rethrow 1", ":test " + q, ":rethrow 0", ":run 2 %s %s" % (t, q)]))
+                    out.append(" ".join(ch + [":runnerx %s 1 1 %s" % (" ".join(cmdline()), q), ":rethrow 0", ":test " + t, ":run 1 " + q]))
+                    out.append(" ".join(ch + [":runnerx %s 1 1 %s" % (" ".join(cmdline(e=1)), q), ":test " + t]))
+                    out.append(" ".join(ch + [":runner 1 1 " + q, ":test " + t, ":runnerx %s 1 1 %s" % (" ".join(cmdline(e=1)), t)]))
+        # -f (crash on fail, with a crash method that returns) left behind, failing tests later; -p (forked tests) with every outcome
+        f = fmt_xtest(QUIETS[2])
+        out.append(" ".join(ch + [":runnerx %s 1 1 %s" % (" ".join(cmdline(f=1)), f), ":runnerx %s 1 2 %s %s" % (" ".join(cmdline(e=1)), f, fmt_xtest(QUIETS[1]))]))
+        out.append(" ".join(ch + [":crashonfail 1", ":runnerx %s 1 1 %s" % (" ".join(cmdline()), f), ":crashonfail 0", ":runnerx %s 1 1 %s" % (" ".join(cmdline()), f)]))
+        if not any(c.startswith(":act") for c in ch):
+            for e in (0, 1):
+                tests = [QUIETS[1], QUIETS[2]] + ([thrower(":thrstd", 1, 2), thrower(":thr", 2, 1)] if e else [])
+                out.append(" ".join(ch + [":runnerx %s 1 1 %s" % (" ".join(cmdline()), fmt_xtest(QUIETS[0])),
+                                          ":runnerx %s 1 %x %s" % (" ".join(cmdline(e=e, p=1)), len(tests), " ".join(fmt_xtest(x) for x in tests)),
+                                          ":runnerx %s 1 1 %s" % (" ".join(cmdline(e=1)), fmt_xtest(thrower(":thr", 0, 1)))]))
+    return out
+
+
+def process_session(rng):
+    """a process: a registry with 0-3 plugins, then 2-5 runs -- runner invocations with random command lines, registry runs, single
+    tests -- with setRethrowExceptions / setCrashOnFail calls in between; tests redirect pointers and pass / fail / throw; a throwing
+    test is generated (most of the time) right where an EARLIER run or call has left rethrowing on and the run's own -e turns it off"""
+    r = Reg()
+    ops = []
+    sep_session = rng.random() < 0.12
+    setup_chain(rng, r, ops, rng.randrange(0, 4), p_actor=0.0 if sep_session else 0.1, p_sp=0.4, names=[RUNNER_NAME, 1, 2, 3, 0xa1])
+    coff = True
+    left_on = False       # the switch as the code has it
+    p_act = 0.0 if sep_session else 0.12
+    try:
+        for _ in range(rng.randrange(2, 6)):
+            c = rng.random()
+            if c < 0.62:
+                want_throw = rng.random() < (0.8 if left_on else 0.45)
+                e = 1 if want_throw else int(rng.random() < 0.3)
+                rep = rng.choice([1, 1, 1, 2, 3])
+                r.install(RUNNER_NAME, 1, "runner")
+                xs = [no_throws(gen_xtest(rng, r, p_act=p_act, small=rng.random() < 0.85, sets=rng.random() < 0.85)) for _ in range(rng.randrange(1, 4))]
+                if want_throw:
+                    k = rng.randrange(len(xs))
+                    xs[k] = with_throw(rng, xs[k])
+                    if rng.random() < 0.3:
+                        k = rng.randrange(len(xs))
+                        xs[k] = with_throw(rng, xs[k])
+                ok = True
+                r2 = r.clone()
+                for _k in range(rep - 1):
+                    for x in xs:
+                        if not r.test_ok(x):
+                            ok = False
+                            break
+                        r.run_test(x)
+                    if not ok:
+                        break
+                if not ok or r.bad:
+                    return None
+                # validity is judged on the tests as they are (a throw leaves its phase: actions behind it are not performed)
+                ops.append(("runnerx", cmdline(e=e, f=int(rng.random() < 0.15), p=int(sep_session and rng.random() < 0.6), v=rng.choice([0, 0, 1, 2]), c=int(rng.random() < 0.1)), "%x" % rep, xs))
+                amb = any(p.name == RUNNER_NAME and p.role != "runner" for p in r.c)
+                r.act((":ar", "%x" % RUNNER_NAME))
+                coff = coff and bool(e)
+                left_on = not e
+                if amb:
+                    if rng.random() < 0.5:
+                        break
+                    r.act((":az",))
+                    ops.append(("reset",))
+            elif c < 0.74:
+                b = int(rng.random() < 0.5)
+                ops.append(("rethrow", "%x" % b))
+                coff = not b
+                left_on = bool(b)
+            elif c < 0.8:
+                ops.append(("crashonfail", "%x" % int(rng.random() < 0.6)))
+            else:
+                n = 1 if rng.random() < 0.5 else rng.randrange(2, 4)
+                xs = [no_throws(gen_xtest(rng, r, p_act=p_act, sets=rng.random() < 0.7)) for _ in range(n)]
+                if coff and rng.random() < 0.6:
+                    k = rng.randrange(len(xs))
+                    xs[k] = with_throw(rng, xs[k])
+                ops.append(("test", xs[0]) if n == 1 else ("run", xs))
+            if rng.random() < 0.15 and not sep_session:
+                setup_chain(rng, r, ops, 1, p_actor=0.0, p_sp=0.4, names=[RUNNER_NAME, 1, 2, 3])
+    except ValueError:
+        pass
+    line = fmt(ops)
+    return line if py_valid(line) else None
+
 
 def generate(tier, rng):
-    out = exhaustive_removals() + exhaustive_runs() + exhaustive_runner() + exhaustive_reinstalls()
-    n = 1100 if tier == "quick" else 16000
+    out = exhaustive_removals() + exhaustive_runs() + exhaustive_runner() + exhaustive_reinstalls() + exhaustive_process()
+    n = 1000 if tier == "quick" else 14000
+    for _ in range(n):
+        s = process_session(rng)
+        if s:
+            out.append(s)
     for _ in range(n):
         out.append(reinstall_session(rng))
     for _ in range(n):
@@ -840,6 +1051,8 @@ def nontrivial(s):
     if (":run" in t or ":runner" in t) and any(a in t for a in ACTS):
         return True
     if ":reinst" in t or ":ab" in t:
+        return True
+    if ":runnerx" in t and (":thr" in t or ":thrstd" in t):
         return True
     n = 0
     for i, x in enumerate(t):
@@ -878,6 +1091,35 @@ def classify(s):
                 lab.append("runner:registry-holds-the-runner's-plugin-name")
         except Exception:
             pass
+    if ":runnerx" in t or ":rethrow" in t or ":crashonfail" in t:
+        try:
+            ops = parse(s)
+            runs = [o for o in ops if o[0] in ("runnerx", "runner", "run", "test")]
+            lab.append("process:runs=%s" % ("1" if len(runs) <= 1 else "2" if len(runs) == 2 else "3+"))
+            on = False           # the rethrow switch as earlier runs / calls have left it
+            for o in ops:
+                if o[0] == "rethrow":
+                    on = bool(int(o[1], 16))
+                elif o[0] == "runner":
+                    on = False
+                elif o[0] == "runnerx":
+                    e = bool(int(o[1][0], 16))
+                    if has_throw(o[3]):
+                        lab.append("throw-under-own-e:switch-was-" + ("on" if on else "off"))
+                    for i, nm in enumerate(("-e", "-f", "-p", "-v", "-c")):
+                        if int(o[1][i], 16):
+                            lab.append("cmdline:" + nm)
+                    if int(o[2], 16) > 1:
+                        lab.append("cmdline:-r")
+                    on = not e
+                elif o[0] in ("test", "run") and has_throw([o[1]] if o[0] == "test" else o[1]):
+                    lab.append("throw-in-registry-run")
+            if ":rethrow" in t:
+                lab.append("api:setRethrowExceptions")
+            if ":crashonfail" in t:
+                lab.append("api:setCrashOnFail")
+        except Exception:
+            pass
     if ":act" in t:
         lab.append("acting-plugin")
     for a, l in ((":ar", "in-run-remove"), (":ai", "in-run-install"), (":ae", "in-run-enable"), (":ad", "in-run-disable"), (":az", "in-run-reset"), (":ab", "in-run-reinstall")):
@@ -889,7 +1131,7 @@ def classify(s):
 def items(o):
     res, cur = [], []
     for x in o.split():
-        if x in (":t", ":c") and cur:
+        if x in (":t", ":c", ":x") and cur:
             res.append(cur)
             cur = []
         cur.append(x)
@@ -903,7 +1145,25 @@ def signature(s, o):
     if o.startswith("!"):
         return "crash " + o[:60]
     try:
-        ok, trace = simulate(parse(s))
+        ops = parse(s)
+        if ":x" in o.split():
+            # which run did the exception leave, and what had been left in the rethrow switch before it
+            runs = [q for q in ops if q[0] in ("runnerx", "runner", "run", "test", "rethrow")]
+            ever_on = False      # rethrowing was switched on at some time before (by a run without -e or by the API)
+            for q in runs:
+                if q[0] == "rethrow":
+                    ever_on = ever_on or bool(int(q[1], 16))
+                elif q[0] == "runner":
+                    ever_on = ever_on or not has_throw(q[2])
+                elif q[0] == "runnerx":
+                    if has_throw(q[3]) and int(q[1][0], 16):
+                        return "exception left a runner invocation that has -e (%s)" % (
+                            "rethrowing had been switched on earlier in the process" if ever_on else "rethrowing was never switched on before")
+                    ever_on = ever_on or not int(q[1][0], 16)
+                elif has_throw([q[1]] if q[0] == "test" else q[1]):
+                    return "exception left a registry run although rethrowing was switched off"
+            return "exception left a run in which nothing throws"
+        ok, trace = simulate(ops)
         its = items(o)
         later = None
         for k, e in enumerate(trace):
@@ -973,6 +1233,21 @@ def shrink_all(s):
             for j in range(len(xs)):
                 for x2 in shrink_xtest(xs[j]):
                     yield fmt(ops[:i] + [mk(xs[:j] + [x2] + xs[j + 1:])] + ops[i + 1:])
+        elif o[0] == "runnerx":
+            xs = o[3]
+            mk = lambda l, o=o: ("runnerx", o[1], o[2], l)
+            for j in range(len(xs)):
+                yield fmt(ops[:i] + [mk(xs[:j] + xs[j + 1:])] + ops[i + 1:])
+            if int(o[2], 16) > 1:
+                yield fmt(ops[:i] + [("runnerx", o[1], "1", xs)] + ops[i + 1:])
+            for b in (1, 2, 3, 4):          # drop -f / -p / -v / -c (never -e: it is what makes a throwing run valid)
+                if int(o[1][b], 16):
+                    fl = list(o[1])
+                    fl[b] = "0"
+                    yield fmt(ops[:i] + [("runnerx", tuple(fl), o[2], xs)] + ops[i + 1:])
+            for j in range(len(xs)):
+                for x2 in shrink_xtest(xs[j]):
+                    yield fmt(ops[:i] + [mk(xs[:j] + [x2] + xs[j + 1:])] + ops[i + 1:])
         elif o[0] == "act":
             for j in range(len(o[3])):
                 yield fmt(ops[:i] + [("act", o[1], o[2], o[3][:j] + o[3][j + 1:])] + ops[i + 1:])
@@ -989,7 +1264,14 @@ LEVEL_TEXT = ("Machine-checked (Coq) theorems over an executable model of CppUTe
               "its pre-test value for all statement sequences and outcomes, the table is empty before every test, the limit fails the test "
               "without writing past the table, post order = reverse pre order, removal by name = the chain without the plugins of that name "
               "(from the next test of the same run on), a re-installed object is the head and every enabled installed plugin is reached exactly "
-              "once by the walks over the links, under the runner every pointer is restored whatever the registry held. Tied to the "
+              "once by the walks over the links, under the runner every pointer is restored whatever the registry held; and, one level up, "
+              "a PROCESS of several runs (runner invocations with any command line from -e -f -p -v -vv -c -r<n>, registry runs, "
+              "UtestShell::setRethrowExceptions / setCrashOnFail calls in between; tests pass, fail or THROW) whose state carries "
+              "rethrowExceptions_, the crashing-terminator switch, the current-test statics and the registry's separate-process switch from "
+              "run to run: on every valid session the observation is that of the session with the command lines erased (each run behaves as "
+              "if alone; a runner invocation reads none of the switches it finds; a caught throw is a failure at that statement; forked "
+              "tests lose nothing), no exception leaves a run, the statics are back; the runner that only ever switches rethrowing ON is "
+              "refuted. Tied to the "
               "code by a differential run of the extracted model against a real TestRegistry / CommandLineTestRunner with recording and "
               "acting plugins and scripted tests, with the extracted model-free spec judging the implementation.")
 LEVEL_NOTE = ("Partial for memory safety: the model's table is a bounded list, real accesses to the static table are seen only by ASan. Trusted: Coq "
@@ -999,6 +1281,9 @@ LEVEL_NOTE = ("Partial for memory safety: the model's table is a bounded list, r
               "model of installPlugin / removePluginByName / resetPlugins is hand-written from TestRegistry.cpp / TestPlugin.cpp (not regenerated); "
               "installing an object that is in the chain (circular chain) is outside the property and excluded by `valid`. The static "
               "CommandLineTestRunner::RunAllTests wrapper (memory-leak plugin, console output) is not driven, runAllTestsMain is. "
+              "Process level: a throwing test where rethrowing is on is outside `valid` (the exception is meant to leave the run); -p sessions "
+              "are judged only without registry actions; the crash-on-fail switch and the current-test statics are carried by the model but "
+              "nothing observed depends on them; shuffle / reverse / filters / output formats are not exercised. "
               "MAX_SET is re-read from TestPlugin.h on every run.")
 TECHNIQUE = "Coq proof over hand-written executable model + extracted-model/implementation correspondence check (differential, exhaustive small chains)"
 READY = True
